@@ -77,9 +77,10 @@ termini, intervals, residues) and multiplier, every known ion type, any charge (
 isotope offset and loss, both modes.  |ε| ≤ 2·10⁻⁸ in monoisotopic mode (`C02.particles_ok`); in average mode
 `m(H)` is the average hydrogen mass and ε = −1.157·10⁻⁴.
 
-Partial: global static rules (`a.static = none`) and explicit adduct lists are not covered by this theorem — static
-rules are tied by correspondence and the oracle only; adduct lists with counts ≠ 1 are the known finding
-KF-C03-adduct-electron-count.  With isotope labels in force `mass` IS the composition path (`mass_label_path`). -/
+Partial: this theorem is the case without global static rules (`a.static = none`); `mass_eq_compMass_static` is the
+case with rules.  Explicit adduct lists are not covered (adduct counts ≠ 1 are the known finding
+KF-C03-adduct-electron-count; see `C02.mass_eq_spec_adducts` for the mass side).  With isotope labels in force `mass`
+IS the composition path (`mass_label_path`). -/
 theorem mass_eq_compMass_partial (env : Env) (a : Annotation) (o : Opts)
     (hstatic : a.static = none) (hl : o.isotopeMods = none) (hl' : a.isotope = none)
     (had : o.adducts = none) (had' : a.adducts = none) (hprec : o.precision = none)
@@ -89,6 +90,22 @@ theorem mass_eq_compMass_partial (env : Env) (a : Annotation) (o : Opts)
     ∃ c d, compMass env a o.ion o.charge o.isotope none none o.useIsotopeOnMods = .ok (c, d) ∧
       mass env a o = .ok (chemMassL (μ o.mono) c + d + o.loss + kProtons a o * (Gen.protonMass - hplus o.mono)) :=
   mass_eq_compMass_of_tables ion_tables_agree env a o hstatic hl hl' had had' hprec hres hcons hadj hion
+
+/-- **the same identity with global static rules** (`<[mods]@targets>`, including `N-Term`, `C-Term` and multi-residue
+targets, any multiplier): `comp_mass` condenses the rules into terminal / per-residue modifications, `mass` adds
+`mods × number of matching residues`; both routes agree exactly.  `map` is what `parse_static_mods` returns for the
+annotation's rules; its modifications must resolve self-consistently like the written ones.  Together with
+`mass_eq_compMass_partial` (no rules) this covers every annotation without an explicit adduct list. -/
+theorem mass_eq_compMass_static (env : Env) (a : Annotation) (o : Opts)
+    (st : List Mod) (map : List (List Char × List Mod)) (hs : a.static = some st) (hp : env.parseStatic st = .ok map)
+    (hl : o.isotopeMods = none) (hl' : a.isotope = none)
+    (had : o.adducts = none) (had' : a.adducts = none) (hprec : o.precision = none)
+    (hres : KnownResidues a.seq) (hcons : AllConsistent env o.mono (writtenMods a ++ mapMods map))
+    (hadj : (lookup o.ion neutralAdj).isSome = true)
+    (hion : o.ion = ionP ∨ o.ion = ionN ∨ (lookup o.ion Gen.ionComp).isSome = true) :
+    ∃ c d, compMass env a o.ion o.charge o.isotope none none o.useIsotopeOnMods = .ok (c, d) ∧
+      mass env a o = .ok (chemMassL (μ o.mono) c + d + o.loss + kProtons a o * (Gen.protonMass - hplus o.mono)) :=
+  mass_eq_compMass_static_of_tables ion_tables_agree env a o st map hs hp hl hl' had had' hprec hres hcons hadj hion
 
 /-- the size of ε: monoisotopic |ε| ≤ 2·10⁻⁸, average |ε| ≤ 1.2·10⁻⁴ — so the two calculators differ by at most
 `|k|·2·10⁻⁸` Da (mono) resp. `|k|·1.2·10⁻⁴` Da (average), inside the property's 10⁻⁴ / 10⁻³ for |k| ≤ 8 -/
